@@ -390,12 +390,12 @@ def _circuit_chunk(arg) -> dict:
 # ---------------------------------------------------------------------------------------------------
 # limits at 0 Hz and infinite frequency
 
-def check_limits(sym: str, combo: Sequence[float], st) -> Tuple[List[dict], Dict[str, int]]:
+def check_limits(sym: str, combo: Sequence[float], st, element=None) -> Tuple[List[dict], Dict[str, int]]:
     np = st["np"]
     C = st["els"][sym]
     keys = list(C.get_default_values())
     lam = class_lambdas(sym, st)
-    e = C(**dict(zip(keys, combo)))
+    e = element if element is not None else C(**dict(zip(keys, combo)))
     out: Dict[str, int] = {}
     viols = []
     for f, fe, fe2 in ((0.0, 1e-60, 1e-120), (math.inf, 1e60, 1e120)):
@@ -428,23 +428,47 @@ def check_limits(sym: str, combo: Sequence[float], st) -> Tuple[List[dict], Dict
     return viols, out
 
 
-def _limit_chunk(items) -> dict:
-    st = setup()
-    viols: Dict[str, dict] = {}
+def limit_sequence(sym: str, seq: Sequence[Sequence[float]], same_instance: bool, st) -> Tuple[List[dict], Dict[str, int]]:
+    """Evaluates the 0 Hz / infinite-frequency limits for a *sequence* of parameter vectors of one class in this process
+    (a fresh fork of the runner), either on new instances or on one instance updated with set_values.
+    A violation records the whole prefix: limits must not depend on what was evaluated before."""
+    np = st["np"]
+    C = st["els"][sym]
+    keys = list(C.get_default_values())
+    viols: List[dict] = []
     outs: Dict[str, int] = {}
-    nontrivial = []
-    for sym, combo in items:
-        v, o = check_limits(sym, combo, st)
+    inst = C() if same_instance else None
+    for i, combo in enumerate(seq):
+        if same_instance:
+            inst.set_values(**dict(zip(keys, combo)))
+            v, o = check_limits(sym, combo, st, element=inst)
+        else:
+            v, o = check_limits(sym, combo, st)
         for k, x in o.items():
             outs[k] = outs.get(k, 0) + x
-        nontrivial.append(hash(("lim", sym, tuple(combo))))
         for x in v:
-            if x["key"] not in viols:
-                x["count"] = 1
-                viols[x["key"]] = x
-            else:
-                viols[x["key"]]["count"] += 1
-    return {"n": 2 * len(items), "nontrivial": nontrivial, "violations": list(viols.values()), "outcomes": outs}
+            x["key"] += "|first-evaluation" if i == 0 else "|after-evaluating-other-values" + ("-on-the-same-instance" if same_instance else "")
+            x["case"] = {"part": "limit-seq", "sym": sym, "seq": [list(c) for c in seq[: i + 1]], "same_instance": same_instance}
+            viols.append(x)
+        if v:
+            break
+    return viols, outs
+
+
+def _limit_job(arg) -> dict:
+    sym, seq, same_instance = arg
+    st = setup()
+    v, o = limit_sequence(sym, seq, same_instance, st)
+    for x in v:
+        x["count"] = 1
+    return {"n": 2 * len(seq), "nontrivial": [hash(("lim", sym, tuple(map(tuple, seq)), same_instance))], "violations": v, "outcomes": o}
+
+
+def _fresh_fork(fn, arg):
+    import multiprocessing as mp
+
+    with mp.get_context("fork").Pool(1, maxtasksperchild=1) as pool:
+        return pool.apply(fn, (arg,))
 
 
 def grids(thorough: bool, st) -> Dict[str, List[Tuple[float, ...]]]:
@@ -510,19 +534,19 @@ def run(ctx) -> None:
             for nm in names:
                 cjobs.append((t, [nm], names if n <= 2 or thorough else names[:6], n - 1))
     ctx.pmap(_circuit_chunk, cjobs, label="circuits numeric vs symbolic")
-    # limits
-    items = []
+    # limits: sequences of parameter vectors per class, each sequence in a fresh fork of this process
+    ljobs = []
     for sym, combos in g.items():
         C = st["els"][sym]
         d = tuple(C.get_default_values().values())
-        sel = [d]
+        sel = [d, combos[-1]]
         if thorough:
-            sel += [combos[0], combos[-1], combos[len(combos) // 2], combos[len(combos) // 3]]
-        else:
-            sel += [combos[-1]]
-        for c in dict.fromkeys(sel):
-            items.append((sym, c))
-    ctx.pmap(_limit_chunk, [[it] for it in items], label="limits at 0 and inf")
+            sel += [combos[0], combos[len(combos) // 2], combos[len(combos) // 3]]
+        sel = list(dict.fromkeys(sel))
+        ljobs.append((sym, sel, False))
+        ljobs.append((sym, list(reversed(sel)), False))
+        ljobs.append((sym, sel, True))
+    ctx.pmap(_limit_job, ljobs, label="limits at 0 and inf (value sequences, fresh process each)", maxtasksperchild=1)
 
 
 def replay(case: dict) -> list:
@@ -547,6 +571,8 @@ def replay(case: dict) -> list:
         return check_tlm(case["cfg"], st)[0]
     if part == "circuit":
         return check_circuit(tup(case["tree"]), case["fill"], st)
-    if part == "limit":
-        return check_limits(case["sym"], [fl(v) for v in case["values"].values()], st)[0]
+    if part == "limit-seq":
+        seq = [[fl(v) for v in c] for c in case["seq"]]
+        res = _fresh_fork(_limit_job, (case["sym"], seq, bool(case.get("same_instance"))))
+        return res["violations"]
     return []
